@@ -2001,6 +2001,7 @@ func main() {
 			w := materialise(sc, root, rr)
 			t1 := time.Now()
 			o1 := runImpl(sc, w)
+			done1 := time.Now()
 			cleanInspectionLinks(w)
 			m1 := coqModelAt(sc, w, sc.Params, t1.UnixNano())
 			time.Sleep(time.Until(exp.Add(1500 * time.Millisecond)))
@@ -2010,11 +2011,18 @@ func main() {
 			m2 := coqModelAt(sc, w, sc.Params, t2.UnixNano())
 			impl := o1.String() + ";" + o2.String()
 			oracle := impl
-			if o1.Verdict != "accept" || o2.Verdict != "reject" || len(o2.Log) > 0 {
+			slow := !done1.Before(exp.Add(-300 * time.Millisecond))
+			if slow {
+				// the machine was too slow: the first verification did not finish clearly before the expiry, so its verdict
+				// says nothing (and the model, evaluated at the start time, need not agree): the scenario is dropped from this run
+				fmt.Fprintln(os.Stderr, "e2e: expires-between-verifications dropped: first verification took", done1.Sub(t1))
+			} else if o1.Verdict != "accept" || o2.Verdict != "reject" || len(o2.Log) > 0 {
 				oracle = fmt.Sprintf("VIOLATES: layout expiring at %s must be accepted at %s and rejected (no inspection run) at %s; got %s then %s",
 					sc.Expires, t1.UTC().Format(time.RFC3339), t2.UTC().Format(time.RFC3339), o1.Verdict, o2.Verdict)
 			}
-			wr.Put(lib.Case{Klass: sc.Klass, Input: lib.MustJSON(sc), Impl: impl, Oracle: oracle, CoqModel: "(" + m1 + " ++ [59] ++ " + m2 + ")"})
+			if !slow {
+				wr.Put(lib.Case{Klass: sc.Klass, Input: lib.MustJSON(sc), Impl: impl, Oracle: oracle, CoqModel: "(" + m1 + " ++ [59] ++ " + m2 + ")"})
+			}
 			os.RemoveAll(root)
 		}
 		wr.Close()
